@@ -68,14 +68,53 @@ fn glob(pat: &str, s: &str) -> bool {
     true
 }
 
-/// the ordered label names recorded in the failure message
-fn labels_of(msg: &str) -> Vec<String> {
+/// the ordered (label name, argument) pairs recorded in the failure message
+fn labels_of(msg: &str) -> Vec<(String, String)> {
     for l in msg.lines() {
         if let Some(rest) = l.strip_prefix("labels: ") {
-            return rest.split_whitespace().map(|x| x.split('@').next().unwrap_or("").to_string()).collect();
+            return rest
+                .split_whitespace()
+                .map(|x| {
+                    let name = x.split('@').next().unwrap_or("").to_string();
+                    let arg = x.split_once('(').map(|p| p.1.trim_end_matches(')').to_string()).unwrap_or_default();
+                    (name, arg)
+                })
+                .collect();
         }
     }
     vec![]
+}
+
+/// `witness` is an ordered list of label names; names ending in '#' must all carry the same argument
+fn witness_matches(witness: &[String], labels: &[(String, String)]) -> bool {
+    fn rec(w: &[String], labels: &[(String, String)], from: usize, arg: Option<&str>) -> bool {
+        if w.is_empty() {
+            return true;
+        }
+        let (name, same) = match w[0].strip_suffix('#') {
+            Some(n) => (n, true),
+            None => (w[0].as_str(), false),
+        };
+        for i in from..labels.len() {
+            if labels[i].0 != name {
+                continue;
+            }
+            if same {
+                if let Some(a) = arg {
+                    if labels[i].1 != a {
+                        continue;
+                    }
+                }
+                if rec(&w[1..], labels, i + 1, Some(labels[i].1.as_str())) {
+                    return true;
+                }
+            } else if rec(&w[1..], labels, i + 1, arg) {
+                return true;
+            }
+        }
+        false
+    }
+    rec(witness, labels, 0, None)
 }
 
 pub fn matches_known(k: &Known, prop: &str, v: &Violation) -> bool {
@@ -88,17 +127,8 @@ pub fn matches_known(k: &Known, prop: &str, v: &Violation) -> bool {
     if !k.msg_contains.iter().all(|m| v.msg.contains(m.as_str())) {
         return false;
     }
-    if !k.witness.is_empty() {
-        let labels = labels_of(&v.msg);
-        let mut i = 0;
-        for l in labels.iter() {
-            if i < k.witness.len() && *l == k.witness[i] {
-                i += 1;
-            }
-        }
-        if i < k.witness.len() {
-            return false;
-        }
+    if !k.witness.is_empty() && !witness_matches(&k.witness, &labels_of(&v.msg)) {
+        return false;
     }
     true
 }
@@ -156,13 +186,13 @@ pub fn finish(prop: &str, tier: &str, seed: u64, scs: &[Scenario], results: Vec<
         min_bound = min_bound.min(r.bound_completed);
         max_bound = max_bound.max(r.bound_completed);
         machinery.extend(r.machinery.iter().cloned());
-        if !sc.sequential && (r.threads_active_max < 2 || r.both_orders() == 0) {
-            vacuous.push(format!("{} (active threads {}, conflicting site pairs seen in both orders {})", r.name, r.threads_active_max, r.both_orders()));
+        if !sc.sequential && (r.threads_active_max < 2 || r.sigs.len() < 2) {
+            vacuous.push(format!("{} (active threads {}, distinct conflict signatures {})", r.name, r.threads_active_max, r.sigs.len()));
         }
         table.push(json!({
             "scenario": r.name, "family": r.family, "cfg": r.cfg, "executions": r.executions, "per_level": r.per_level,
             "choice_points_default_execution": r.n0, "max_choice_points": r.max_n, "max_steps": r.max_steps,
-            "bound_requested": r.bound_requested, "bound_completed": r.bound_completed, "capped": r.capped,
+            "bound_requested": r.bound_requested, "bound_completed": r.bound_completed, "capped": r.capped, "schedule_tree_exhausted": r.tree_exhausted,
             "distinct_outcomes": r.outcomes.len(), "distinct_conflict_signatures": r.sigs.len(),
             "conflict_pairs_both_orders": r.both_orders(), "active_threads": r.threads_active_max,
             "recycled_allocations_max": r.reused_max, "sequential_cases": r.sub_evals,
